@@ -188,7 +188,15 @@ RelV(a, b) ==
                     (b.after.top = ren(b.before.top) /\
                      b.after.tr = [i \in DOMAIN b.before.tr |->
                         <<ren(b.before.tr[i][1]), b.before.tr[i][2],
-                          IF b.before.tr[i][2] # ConceptRole /\ b.before.tr[i][3] \in Vars(b.before) THEN ren(b.before.tr[i][3]) ELSE b.before.tr[i][3]>>])>> >>, 1)
+                          IF b.before.tr[i][2] # ConceptRole /\ b.before.tr[i][3] \in Vars(b.before) THEN ren(b.before.tr[i][3]) ELSE b.before.tr[i][3]>>])>>,
+                \* the same law on the library's own readings (interpret() of the tree before and after the call, as logged)
+                <<"interpret-of-the-relabelled-tree-is-the-renamed-interpret-of-the-original",
+                    RelabelCollides(T.tree, map) \/ T.gi.exc = "before" \/
+                    (T.gi.ok /\ T.gi.after.top = ren(T.gi.before.top) /\
+                     T.gi.after.tr = [i \in DOMAIN T.gi.before.tr |->
+                        <<ren(T.gi.before.tr[i][1]), T.gi.before.tr[i][2],
+                          IF T.gi.before.tr[i][2] # ConceptRole /\ (\E k \in DOMAIN T.gi.vars : T.gi.vars[k] = T.gi.before.tr[i][3])
+                          THEN ren(T.gi.before.tr[i][3]) ELSE T.gi.before.tr[i][3]>>])>> >>, 1)
          IN IF v # Acc THEN v
             ELSE IF ~a.plan.known THEN NA("prefix of a non-ASCII concept not computable by the specification (bijection clauses held)")
             \* "a bijection chosen from the node concepts in depth-first order": node after node in depth-first order, each gets the
